@@ -271,6 +271,10 @@ func (s *Sched) waitQuiet() bool {
 			buf = make([]byte, 1<<18)
 		}
 		n := runtime.Stack(buf, true)
+		for n == len(buf) && len(buf) < 1<<27 { // dump truncated (abandoned goroutines of earlier schedules): grow
+			buf = make([]byte, 2*len(buf))
+			n = runtime.Stack(buf, true)
+		}
 		allBlocked := true
 		for _, t := range running {
 			if !goroutineBlocked(buf[:n], t.goid) {
